@@ -41,6 +41,11 @@ OUTCOMES = ["ok", "raise", "none", "nc", "ncsrc", "wrong", "false"]  # ncsrc: a 
 SEQS = {"a": "ACGT", "ba": "GGCC", "c": "TTAA", "fasta1": "CAGT", "a.v2": "CCAT"}
 
 
+# every run unpickles fresh molecular-type objects (the virtual executor hands arguments and results over as pickles, like a
+# real pool does), and the library keeps each of them in a module-level registry: workers are replaced after a few shards
+MAX_TASKS_PER_CHILD = 4
+
+
 def bounds(tier):
     return {
         "quick": {"id_sets": [["a"], ["a", "ba"], ["ba", "a", "c"], ["a", "a.v2"]], "steps": [1], "two_step_sets": [["ba", "a"]], "workers": [1, 2, 3], "stores": ["dir", "sqlite"]},
